@@ -336,11 +336,12 @@ func (s *MultiCIDRSet) getIndexForIP(ip net.IP) (int, error) {
 		bigIP := big.NewInt(0).SetBytes(s.ClusterCIDR.IP)
 		bigIP = bigIP.Xor(bigIP, big.NewInt(0).SetBytes(ip))
 		cidrIndexBig := bigIP.Rsh(bigIP, uint(net.IPv6len*8-s.NodeMaskSize))
-		cidrIndex := cidrIndexBig.Uint64()
-		if cidrIndex >= uint64(s.MaxCIDRs) {
+		// Compare before truncating to 64 bits: an address that differs from the cluster
+		// CIDR only in its upper bits must not be mapped to a valid index.
+		if !cidrIndexBig.IsUint64() || cidrIndexBig.Uint64() >= uint64(s.MaxCIDRs) {
 			return 0, fmt.Errorf("CIDR: %v/%v is out of the range of CIDR allocator", ip, s.NodeMaskSize)
 		}
-		return int(cidrIndex), nil
+		return int(cidrIndexBig.Uint64()), nil
 	}
 
 	return 0, fmt.Errorf("invalid IP: %v", ip)
